@@ -291,5 +291,28 @@ where
     Ok(())
 }
 
+/// C08: a read-only clone taken earlier and kept across mutations. Ok(true) when its values were compared
+/// (same condition as for the fresh clones: the stored prefix equals the logical contents).
+pub fn check_kept_clone<V: VecKind>(sut: &Sut<V>, old: &vecdb::ReadableBoxedVec<usize, V::T>, req: &ReadReq, st: &mut ReadStats) -> Result<bool, String>
+where
+    V::T: Elem,
+{
+    let m = &sut.model;
+    if m.stored_dirty || m.has_holes() {
+        return Ok(false);
+    }
+    let len = m.items.len();
+    let pp = sut.per_page();
+    let stored_len = sut.v().stored_len();
+    let from = resolve(req.from, len, stored_len, pp);
+    let to = resolve(req.to, len, stored_len, pp);
+    let mut idxs: Vec<usize> = req.idxs.iter().map(|&s| resolve(s, len, stored_len, pp)).collect();
+    idxs.push(from);
+    let stored_items: Vec<Option<V::T>> = m.items[..m.stored.min(len)].to_vec();
+    let view = View { items: &stored_items, what: "read-only clone kept across mutations" };
+    reads::check_boxed(old, &view, from, to, &idxs, &mut st.reads)?;
+    Ok(true)
+}
+
 #[allow(dead_code)]
 fn _bounds<V: StoredVec + ReadableCloneableVec<usize, <V as vecdb::TypedVec>::T>>() {}
